@@ -122,15 +122,19 @@ def model():
             name = orm.Required(str)
             bookings = orm.Set(Booking)
             seats_plain = orm.Set('Plain')
+            labels = orm.Set('Label')
 
         class Plain(db.Entity):
             trip = orm.Optional(Trip)
+
+        class Label(db.Entity):                     # many-to-many: an entity WITH collections that is itself a member of collections
+            trips = orm.Set(Trip)
         db.generate_mapping(create_tables=True)
         with orm.db_session:
             t = Trip(name='t')
             for r, n in ((1, 2), (1, 3), (4, 5)):
                 Booking(seat=Seat(row=r, number=n), trip=t)
-            Plain(trip=t); Plain(trip=t)
+            Plain(trip=t); Plain(trip=t); Label(trips=[t]); Label(trips=[t]); Label()
         _M = types.SimpleNamespace(db=db, orm=orm)
     return _M
 
@@ -143,7 +147,7 @@ def _td_case(cfg, values):
             t = M.db.Trip.select().first()
             objs = {'Trip': [t], 'Booking': list(M.db.Booking.select()), 'Seat': list(M.db.Seat.select()), 'Plain': list(M.db.Plain.select())}[cfg['start']]
             d = ser.to_dict(objs)
-            raw = {e: sorted(o._get_raw_pkval_() for o in getattr(M.db, e).select()) for e in ('Trip', 'Booking', 'Seat', 'Plain')}
+            raw = {e: sorted(o._get_raw_pkval_() for o in getattr(M.db, e).select()) for e in ('Trip', 'Booking', 'Seat', 'Plain', 'Label')}
             return dict(d), raw
     return Case(call, {}, [])
 
@@ -187,7 +191,51 @@ def _td_relation_keys(cfg, i, path):
     return (None not in bk and sorted(bk) == raw['Booking'] and sorted(pl) == raw['Plain'])
 
 
+# ------------------------------------------------------------------ Bag.to_dict: every object GIVEN is reported completely, in whatever order the objects are given
+def _bo_configs(tier):
+    import itertools
+    kinds = ('Trip', 'Plain', 'Booking', 'Seat', 'Label')
+    return [dict(order='+'.join(p)) for n in (2, 3) for p in itertools.permutations(kinds, n)] + [dict(order='+'.join(p)) for p in itertools.permutations(kinds, 5)][::7]
+
+
+def _bo_case(cfg, values):
+    M = model()
+
+    def call():
+        bad = []
+        with M.orm.db_session:
+            objs = []
+            for kind in cfg['order'].split('+'): objs.extend(getattr(M.db, kind).select().order_by(lambda x: x))
+            d = ser.to_dict(objs)
+            for o in objs:
+                E = type(o); pk = o._get_raw_pkval_()
+                key = pk[0] if len(E._pk_columns_) == 1 else ','.join(str(x) for x in pk)          # (the keys of this model hold no separators)
+                got = d.get(E.__name__, {}).get(key)
+                if got is None: bad.append(('%s is not in the result' % o,)); continue
+                for a in E._attrs_:
+                    if a.lazy and not a.is_collection: continue
+                    if a.name not in got: bad.append(('%s given, but its %s is missing' % (o, a.name), 'given order: %s' % cfg['order'])); continue
+                    v = getattr(o, a.name)
+                    def k(x):
+                        r = x._get_raw_pkval_()
+                        return r[0] if len(r) == 1 else ','.join(str(i) for i in r)
+                    def k1(x):
+                        r = x._get_raw_pkval_()
+                        return r[0] if len(r) == 1 else r
+                    want = sorted(k(x) for x in v) if a.is_collection else (None if v is None else k1(v)) if a.is_relation else v
+                    if got[a.name] != want: bad.append(('%s.%s' % (o, a.name), 'reported %r' % (got[a.name],), 'current %r' % (want,)))
+        return bad[:4]
+    return Case(call, {}, [])
+
+
+def _bo_spec(cfg, i, path):
+    return path.outcome == 'ret' and path.value == []
+
+
 CONTRACTS = [
+    Contract('Bag.to_dict.given_objects', ['pony.orm.serialization:Bag.to_dict', 'pony.orm.serialization:Bag._process_object', 'pony.orm.serialization:Bag.put', 'pony.orm.serialization:to_dict'],
+             _bo_configs, _bo_case, [('every_given_object_reported_with_all_its_attributes_and_relationship_keys', _bo_spec)], level='bounded',
+             bound='the same model plus a many-to-many entity; objects of 2..3 of its 5 entities given together in every order, and of all 5 in 18 orders'),
     Contract('Bag._reduce_composite_pk', 'pony.orm.serialization:Bag._reduce_composite_pk', [dict(arity=k) for k in (2, 3, 4)], _case,
              [('parts_encoded_with_one_chain_and_joined_by_commas', _shape)] + [('local_decode[%s]' % c, _local(c)) for c in ('*', ',', OTHER)]
              + [('separator_and_end_stop_a_part', _sep)], replay=_replay,
